@@ -154,7 +154,7 @@ let run_case op t =
       let ext = next_z t in let which = next_str t in let count = next_z t in
       let e = (match which with "ptr" -> "count" | "rng" | "dynl" -> "ranges::size(r)" | _ -> "source.size()") in
       (lege (span_ctor_count ext count) "span.hpp" ("extent_==_dynamic_extent_or_" ^ e ^ "_==_extent"), sp (pre_span_ctor (u ext) (u count)))
-  | "sv" ->
+  | "sv" | "wsv" ->
       let n = next_z t in let o = next_str t in let a = next_z t in let b = next_z t in
       let f = "basic_string_view.hpp" in
       (match o with
@@ -164,6 +164,7 @@ let run_case op t =
        | "rmp" -> (lege (sv_remove_prefix n a) f "n_<=_size()", sp (pre_count n (u a)))
        | "rms" -> (lege (sv_remove_suffix n a) f "n_<=_size()", sp (pre_count n (u a)))
        | "copy" -> (lege (sv_copy n a b) f "pos_<=_size()", sp (pre_count n (u b)))
+       | "cmp3" -> (lege (sv_substr n a b) f "pos_<=_size()", sp (pre_count n (u a)))
        | _ -> (lege (sv_substr n a b) f "pos_<=_size()", sp (pre_count n (u a))))
   | "opt" ->
       let e = next_bool t in let o = next_str t in
@@ -273,7 +274,14 @@ let run_case op t =
        | "front" | "cfront" -> let r = str_front s in (of_res nonempty r, sp (Big.sign (big_of_z size) > 0))
        | "back" | "cback" -> let r = str_back s in (of_res nonempty r, sp (Big.sign (big_of_z size) > 0))
        | "idx" | "cidx" -> let r = str_index s (ua 0) in (of_res (f, "index_<_size()_+_1") r, sp (not (gt (ua 0) size)))
-       | "era_it" -> by_op (if gt (ua 0) size then (f, "start_<=_size()") else (f, "distance_<=_size()_-_start")) (OEraseRange (ua 0, ua 1))
+       | "era_it" ->
+           (* which of the two checks fires: the proved site function (C05_string_iterator_range_guard_exact), which must
+              agree with the C04 operation model on whether the call is stopped at all *)
+           let (m, spl) = by_op (f, "?") (OEraseRange (ua 0, ua 1)) in
+           let site = by_site (str_iter_range_site size (a 0) (a 1)) f "start_<=_size()" "distance_<=_size()_-_start" in
+           ((if (m = "ok") = (site = "ok") then site else "site-model-disagrees " ^ m), spl)
+       | "rep_it" | "rep_it_ptr" | "rep_it_cstr" | "rep_it_fill" ->
+           (by_site (str_iter_range_site size (a 0) (a 1)) f "start_<=_size()" "distance_<=_size()_-_start", sp (pre_iter_range size (a 0) (a 1)))
        | "era_pos" -> by_op (if gt (ua 0) size then (f, "start_<=_size()") else (f, "distance_<=_size()_-_start")) (OErasePos (ua 0))
        | "era" -> by_op idx_le (OErase (ua 0, ua 1))
        | "pb" -> by_op (f, "size()_<_capacity()") (OPushBack z)
@@ -376,8 +384,8 @@ let run_case op t =
   | "fmt" ->
       let chars = next_zlist t in
       (match format_escaped_guard chars with
-       | Some ok -> (lege ok "argument.hpp" "false", "na")
-       | None -> ("fuel", "na"))
+       | Some ok -> (lege ok "argument.hpp" "false", sp (fmt_dfa chars))
+       | None -> ("fuel", sp (fmt_dfa chars)))
   | _ -> raise Not_found
 
 let () = main run_case
